@@ -349,7 +349,7 @@ func c19Health(p *core.Prog, r *core.Report) {
 							// a zero edge from inside the loop must be the success arm (err == nil)
 							if phi.Block().Dominates(pred) {
 								fs := factsAt(pred).add(edgeFacts(pred, phi.Block()))
-								if !fs.nilCmp(func(v ssa.Value) bool { return callResult(v, "Connection.ping") != nil }, true) {
+								if !fs.nilCmp(func(v ssa.Value) bool { return resultThrough(p, v, 0, "Connection.ping") }, true) {
 									okShape = false
 									why = "counter reset on a path that is not the successful ping"
 								}
@@ -403,7 +403,13 @@ func c19Health(p *core.Prog, r *core.Report) {
 	// a failed ping leaves the loop without being counted only when the
 	// health checks were cancelled (error code Cancelled - a ping that merely
 	// timed out is a failure) or the connection is no longer usable
-	pings := core.CallsIn(f, "Connection.ping")
+	// the ping (or the helper that performs it and returns its error)
+	var pings []ssa.CallInstruction
+	core.EachInstr(f, func(i ssa.Instruction) {
+		if c, ok := i.(*ssa.Call); ok && resultThrough(p, c, 0, "Connection.ping") {
+			pings = append(pings, c)
+		}
+	})
 	if counter != nil && len(pings) == 1 {
 		inc, _ := counter.(*ssa.BinOp)
 		errV := pings[0].Value()
